@@ -292,3 +292,31 @@ PROPS["C05"] = {
     "level_text": "The real search is logged through wrapper objects and replayed by Cover.check: every cell leaves the buffer emptied by logged contractions, split into two logged children covering it (split2Ok), covered by a box of the final paving, or - when replaced/discarded in favour of a Newton existence box - justified by the uniqueness certificate Newton.replaceCert (interval Jacobian w.r.t. the solution's variables regular on the hull, parameters of the cell inside those of the solution); cells left in the buffer at an interruption must be pending boxes. Theorems: see Props/C05 (acceptance rules; cover soundness).",
     "level_note": "Trusted: Lean kernel + Mathlib; wrappers/dumper/driver; sampled systems and configurations. Known finding: Newton replacement without unicity cover (reported when no uniqueness certificate exists). Fixed: DefaultSolver abort without LP library (02c07dae).",
 }
+
+def _c06_nontrivial(line, verdict):
+    return verdict.startswith("ok solution") or any(k in verdict for k in ("inner-certified", "unknown-small", "status-"))
+
+PROPS["C06"] = {
+    "modules": ["IbexProofs.Props.C06"],
+    "harnesses": ["h_solver"],
+    "workloads": lambda tier, seed: [{"harness": "h_solver", "tag": "verdicts", "args": ["c06", seed, 300 if tier == "quick" else 5000]}],
+    "nontrivial": _c06_nontrivial,
+    "rule": "real Solver runs (same assemblies as C05, plus DefaultSolver) on random systems with planted exact solutions, square systems with 2-3 "
+            "regular solutions all known exactly, systems with singular solutions, under-constrained and inequality-only systems; for every box of "
+            "the returned data (up to 40 solution boxes / 25 inner / 25 unknown boxes per run): solution boxes -> `solbox` (inside the initial box, "
+            "inequalities proved on the box by the model's interval evaluation, no refutation by the exactly known zeros, uniqueness certificate on the "
+            "unicity box, existence by an exactly known zero), inner boxes -> every constraint proved on the box, unknown boxes -> not wider than "
+            "eps_min per component, status vs. counts of boxes; non-trivial = a decided box / status",
+    "assumptions": ["existence inside a solution box is decided only when an exactly known zero lies in it (square systems) - the verdict line says so "
+                    "(existence-by-known-zero / existence-uncertified); under-constrained systems: uniqueness certified, existence for all parameter values not yet certified",
+                    "the uniqueness certificate may fail to exist on a correct unicity box (then the line is tagged uniqueness-uncertified, not failed)"],
+    "trusted": ["expr_io.h dumper", "harness h_solver (read-out of CovSolverData)"],
+    "technique": "Lean 4 proof (verified certifying/refuting rules for the solver's claims: interval-Jacobian uniqueness certificate, exact rational zeros, "
+                 "interval evaluation for inner boxes, exact width/status rules) evaluated on the outputs of real Solver runs",
+    "level_text": "Kernel-checked: `SolClaim` (for every parameter value in E exactly one zero in E, no other in U) follows from the certificates "
+                  "(claim_of_certificates, claim_of_known_zero via C09 unique_zero: regular interval Jacobian) and is refuted by exactly known zeros "
+                  "(refutedOutside_sound, refutedTwo_sound); inner_box_sound (C02 enclosure) for all real points; unknown_small_iff/dist; status rules. "
+                  "Every reported box of every generated run is decided by these rules.",
+    "level_note": "Trusted: Lean kernel + Mathlib; dumper/driver glue; sampled systems and configurations. Existence for under-constrained systems and for "
+                  "solution boxes without a known zero is not certified yet (tagged in the verdict histogram).",
+}
